@@ -21,3 +21,9 @@ package extension
 //@   ensures  result1 == nil ==> result0 != nil
 //@   modifies everything
 //@   preserves extension.manager
+
+// Run (C20): a server failure during start-up is reported to the runtime's init-error endpoint with the context the
+// manager was given -- not with its own context, which it may already have cancelled -- and before anything cancels.
+//@ func (*manager).Run
+//@   callsite initError requires ctx == caller(parent) && calls(cancel) == 0
+//@   modifies everything
